@@ -405,7 +405,7 @@ Proof.
       induction r as [|t r IH]; intros d cond H; cbn [se_scan] in H; [discriminate|].
       destruct d.
       * destruct t as [n a|n|b|k b]; try discriminate; try (eapply IH; exact H).
-        destruct (bytes_eqb (nspace n) sv_ns_stream_error); [eapply IH; exact H|discriminate].
+        destruct (bytes_eqb (nspace n) sv_ns_stream_error); eapply IH; exact H.
       * destruct t; eapply IH; exact H.
     + destruct (bytes_eqb (nlocal n) s_stream); discriminate.
   - eexists; reflexivity.
@@ -645,7 +645,7 @@ Proof.
   induction l as [|t r IH]; intros d cond; cbn [se_scan]; [repeat split; discriminate|].
   destruct d.
   - destruct t as [n a|n|b|k b]; try apply IH; [|repeat split; discriminate].
-    destruct (bytes_eqb (nspace n) sv_ns_stream_error); [apply IH|repeat split; discriminate].
+    destruct (bytes_eqb (nspace n) sv_ns_stream_error); apply IH.
   - destruct t; apply IH.
 Qed.
 
